@@ -13,6 +13,21 @@ CFG = {
         "Leptos.RView.C04_for_rows_are_keys",
         "Leptos.RView.C04_for_keeps_rows",
         "Leptos.RView.C04_enumerate_index",
+        "Leptos.RView.C04_errb_settles",
+        "Leptos.RView.InvE.run",
+        "Leptos.RView.InvE.settled",
+        "Leptos.RView.InvDM.startE",
+        "Leptos.RView.rerunOK_eb",
+        "Leptos.RView.rerunIn_leafR",
+        "Leptos.RView.build_specR",
+        "Leptos.RView.CountE.start",
+        "Leptos.RView.build_count",
+        "Leptos.RView.rerun_count",
+        "Leptos.RView.rerunIn_count",
+        "Leptos.RView.effLoop_count",
+        "Leptos.RView.leaves_settled",
+        "Leptos.RView.runEffBody_sg",
+        "Leptos.RView.upd_sg",
         "Leptos.RView.C04_errb_effect_toggles",
         "Leptos.RView.C04_res_balance",
         "Leptos.RView.C04_dropped_error_unregisters",
@@ -133,8 +148,12 @@ CFG = {
         "impl Render for Result<T, E> (build / rebuild Ok<->Err: throw, clear, placeholder <-> value node; ResultState::hook; Drop for ResultState when the task that held the state ends) with the "
         "thread-local throw_error hook that impl Render for F captures at build and installs on every re-run (Model: View.eb / View.res, St.hook, RState.errb / res / hooked / errTok, bump, "
         "underHook, clearTok). The model has the semantics of the code since ffdfcd9 / 6685c08 (an error is unregistered through the hook its state was built under; ids are unique, so the register is its size): "
-        "F-C04-3 / F-C04-4 in props/C04.known. Abstraction: the errors map is its size. Proved: C04_errb_effect_toggles, C04_res_balance, C04_dropped_error_unregisters, C04_errb_render "
-        "(what each transition does to the register and the DOM) + a kernel-checked history; that every view with boundaries settles to the fresh render is CORRESPONDENCE ONLY so far",
+        "F-C04-3 / F-C04-4 in props/C04.known. Abstraction: the errors map is its size. PROVED: C04_errb_settles — for every program (signals and memos) whose view is a boundary over static structure with dynamic text / "
+        "reactive attributes, classes, styles / Result leaves (every leaf over signals and memos) and EVERY history (writes to the program's signals, polls of any ready task in any order, idle runs): at every "
+        "idle point the DOM is the fresh render (fallback iff some Result is Err for the current values). Proof: register + memo = two more definitions; `bump` = a signal write in the middle of a re-run "
+        "under which the reactive core's TopC invariant is kept (setSigM); the register = number of leaves in error through every build, write and poll (RViewMCount/CountB; the reactive operations never write a "
+        "signal: RViewSigVal); at idle every effect stored its from-scratch value. Also: C04_errb_effect_toggles, C04_res_balance, C04_dropped_error_unregisters, C04_errb_render + kernel-checked histories. "
+        "Boundaries over branches / rows (leaves created and dropped in error, zombies holding registrations), nested boundaries and boundaries below re-rendered regions: CORRESPONDENCE ONLY",
         "leptos Suspense / Transition over AsyncDerived resources AT IDLE POINTS (Model/SView.lean, a specification-level model: what the DOM shows once the executor has nothing left to run, "
         "as a function of the signals, the state of every resource — fetch in flight / value of the last fetch that settled / written again meanwhile / signals tracked so far (an AsyncDerived "
         "never clears its sources) — and, per <Transition>, whether its first pending episode is over (SuspenseBoundary<true>: `nth_run < 2`)): a boundary shows its fallback iff a live Suspend "
